@@ -411,10 +411,10 @@ def run_one(ch, env):
             if n == "index.wtml" and size == 0:
                 size = 300
             files[n] = file_bytes(uid, n, size)
-        # one image in eight has a sub-folder with files of its own (toasty as it stands refuses such a layout with an
+        # one image in sixteen has a sub-folder with files of its own (toasty as it stands refuses such a layout with an
         # error before anything of the image's index is published; an implementation that accepts it has to keep the
         # index last among ALL files of the image)
-        if ch.draw(8, kind="image_with_subfolder") == 7:
+        if ch.draw(16, kind="image_with_subfolder") == 15:
             for n in ("tiles/L1X0Y0.png", "tiles/L1X1Y0.png", "tiles/deep/x.bin")[:1 + ch.draw(3, kind="n_nested")]:
                 files[n] = file_bytes(uid, n, (100, 5000, 70000)[ch.draw(3, kind="nested_size")])
             has_subfolder.append(uid)
